@@ -139,3 +139,14 @@ class Raiser(object):
     def token(self, t):
         self.calls.append(("token", t))
         return t
+
+
+class Canary(object):
+    """a harness-local class: must never be instantiated by deserialisation"""
+    log = []
+
+    def __init__(self, *args, **kwargs):
+        Canary.log.append(("init", args, kwargs))
+
+    def __setstate__(self, state):
+        Canary.log.append(("setstate", state))
